@@ -109,3 +109,46 @@ def rule_futex_key(rep, rid_prefix, prog, pairs=FUTEX_PAIRS):
                     "the awaited state was reached" % (w, sorted(map(str, va)), s_, sorted(map(str, vb))), sample={"wait": w, "wake": s_, "opflags": sorted(map(str, va | vb))})
     if n < 4:
         rep.unknown(rid, "fewer than 4 futex wait/wake pairs found (%d)" % n)
+
+
+def rule_cas_progress(rep, rid, prog, fields=None, floor_name=None):
+    """every compare-exchange that is retried in a loop retries with a refreshed expected value: the expected operand is (through phis / selects) the value
+    the failed compare-exchange returned, or a fresh load of the word made inside the loop. A retry with the stale expected value can never succeed once the
+    word has changed: the thread spins forever (and whatever it was about to publish / wake is lost)."""
+    n = 0
+    for fn in prog.all_functions():
+        for cx in fn.all_insts():
+            if cx.op != "cmpxchg" or (fields is not None and not (prog.fields(cx) & fields)):
+                continue
+            if not fn.inst_reaches(cx, cx):
+                continue
+            E = fn.inst(cx.ops[1])
+            if E is None or E.op != "phi":
+                continue          # constant expected value, or a value recomputed by a load each time round
+            if not fn.inst_reaches(cx, E):
+                continue
+            n += 1
+            rep.saw(fn)
+            ok = False
+            seen, work = set(), [v for v, frm in E.ops]
+            while work:
+                o = work.pop()
+                i = fn.inst(o)
+                if i is None or i.id in seen:
+                    continue
+                seen.add(i.id)
+                if i.op == "extractvalue" and fn.inst(i.ops[0]) is not None and fn.inst(i.ops[0]).op == "cmpxchg" and i.d.get("idx") == [0]:
+                    ok = True
+                elif i.op == "load" and i.d.get("ptr") and fn.inst_reaches(cx, i) and (fields is None or (prog.fields(i) & prog.fields(cx))):
+                    ok = True
+                elif i.op == "phi" and i is not E:
+                    work += [v for v, frm in i.ops]
+                elif i.op in ("select",):
+                    work += list(i.ops[1:])
+                elif i.op in ("bitcast", "inttoptr", "ptrtoint", "trunc", "zext"):
+                    work.append(i.ops[0])
+            rep.require(rid, ok, cx.loc, cx.origin, "cas-retried-with-stale-expected:%s" % cx.origin,
+                        "%s retries a failed compare-exchange on %s without refreshing the expected value (the non-'v' form / a dropped reload): once another thread "
+                        "has changed the word the loop can never succeed - the thread spins forever and the wake-up / hand-off it was about to perform never "
+                        "happens" % (cx.origin, "/".join(sorted(prog.fields(cx))) or "a shared word"), sample={"fn": cx.origin, "at": cx.loc})
+    return n
